@@ -58,8 +58,9 @@ theorem length_body_exact (rd : Msg → Bytes → ResHead) (m m1 : Msg) (s : Byt
     (hr : rd (resReset m) s = .done m1 n) (ha : afterHead m1 = .body k) :
     (transactWith rd m s = .waiting ∧ (s.drop n).length < k) ∨
     (transactWith rd m s = .ok m1 ((s.drop n).take k) (n + k) ∧ ((s.drop n).take k).length = k) := by
-  unfold transactWith
-  rw [hr]
+  unfold transactWith transactAs
+  have hrr : resResetAs true m = resReset m := rfl
+  rw [hrr, hr]
   simp only [ha]
   by_cases hl : (s.drop n).length < k
   · left; rw [if_pos hl]; exact ⟨rfl, hl⟩
@@ -71,7 +72,9 @@ theorem length_body_exact (rd : Msg → Bytes → ResHead) (m m1 : Msg) (s : Byt
     transaction with that error: nothing is delivered -/
 theorem bad_head_fails (rd : Msg → Bytes → ResHead) (m : Msg) (s : Bytes) (rv : Nat) (hr : rd (resReset m) s = .fail rv) :
     transactWith rd m s = .error rv := by
-  unfold transactWith; rw [hr]
+  unfold transactWith transactAs
+  have hrr : resResetAs true m = resReset m := rfl
+  rw [hrr, hr]
 
 /-! ### segmentation independence -/
 
@@ -144,5 +147,255 @@ theorem lenient_framing :
 example : (match transact {} (HttpSrv.asc "HTTP/1.1 200 OK\r\nTransfer-Encoding: chunked\r\n\r\n3\r\nabc\r\n2\r\nde\r\n0\r\n\r\nNEXT") with
     | .ok m b used => (getStatus m, b, used)
     | _ => (0, [], 0)) = (200, HttpSrv.asc "abcde", 67) := by decide +kernel
+
+/-! ### no state of earlier transactions leaks into a transaction -/
+
+/-- what a transaction reads of the connection's message state: the response part and the request method -/
+def Rel (a b : Msg) : Prop :=
+  a.parsedRes = b.parsedRes ∧ a.code = b.code ∧ a.rsn = b.rsn ∧ a.resHdrs = b.resHdrs ∧ a.meth = b.meth
+
+theorem rel_resParseLine (a b : Msg) (l : Bytes) (h : Rel a b) :
+    Rel (resParseLine a l).1 (resParseLine b l).1 ∧ (resParseLine a l).2 = (resParseLine b l).2 := by
+  obtain ⟨h1, h2, h3, h4, h5⟩ := h
+  unfold resParseLine
+  cases strchr SP l with
+  | none => exact ⟨⟨h1, h2, h3, h4, h5⟩, rfl⟩
+  | some p =>
+    obtain ⟨version, r1⟩ := p
+    simp only
+    cases strchr SP r1 with
+    | none => exact ⟨⟨h1, h2, h3, h4, h5⟩, rfl⟩
+    | some q =>
+      obtain ⟨codestr, reason⟩ := q
+      simp only
+      split
+      · exact ⟨⟨h1, h2, h3, h4, h5⟩, rfl⟩
+      · unfold setVersion setStatusReason
+        by_cases hv : versions.contains version = true
+        · simp only [hv, if_true]
+          exact ⟨⟨h1, rfl, rfl, h4, h5⟩, trivial⟩
+        · simp only [hv, Bool.false_eq_true, if_false]
+          exact ⟨⟨h1, rfl, rfl, h4, h5⟩, trivial⟩
+
+theorem rel_parseHeader (a b : Msg) (l : Bytes) (h : Rel a b) :
+    Rel (parseHeader a false l).1 (parseHeader b false l).1 ∧ (parseHeader a false l).2 = (parseHeader b false l).2 := by
+  obtain ⟨h1, h2, h3, h4, h5⟩ := h
+  unfold parseHeader
+  cases strchr COLON l with
+  | none => exact ⟨⟨h1, h2, h3, h4, h5⟩, rfl⟩
+  | some p =>
+    obtain ⟨k, v⟩ := p
+    simp only
+    refine ⟨?_, trivial⟩
+    unfold addHeader setKnown withHdrs hdrsOf
+    simp only [Bool.false_eq_true, if_false, Bool.false_and]
+    by_cases c1 : ieq k sContentType = true
+    · simp only [c1, if_true, h4]; exact ⟨h1, h2, h3, rfl, h5⟩
+    · simp only [c1, Bool.false_eq_true, if_false]
+      by_cases c2 : ieq k sContentLength = true
+      · simp only [c2, if_true, h4]; exact ⟨h1, h2, h3, rfl, h5⟩
+      · simp only [c2, Bool.false_eq_true, if_false, h4]; exact ⟨h1, h2, h3, rfl, h5⟩
+
+theorem rel_onLine (a b : Msg) (l : Bytes) (h : Rel a b) :
+    Rel ((msem false).onLine a l).1 ((msem false).onLine b l).1 ∧ ((msem false).onLine a l).2 = ((msem false).onLine b l).2 := by
+  simp only [msem, lineStep, Bool.false_eq_true, if_false, resLineStep]
+  rw [← h.1]
+  by_cases hp : a.parsedRes = true
+  · simp only [hp, if_true]; exact rel_parseHeader a b l h
+  · simp only [hp, Bool.false_eq_true, if_false]
+    obtain ⟨r1, r2⟩ := rel_resParseLine a b l h
+    rw [← r2]
+    by_cases hr : (resParseLine a l).2 = rvOk
+    · simp only [hr, if_true]
+      exact ⟨⟨rfl, r1.2.1, r1.2.2.1, r1.2.2.2.1, r1.2.2.2.2⟩, trivial⟩
+    · simp only [hr, if_false]
+      exact ⟨r1, r2⟩
+
+theorem rel_finish (a b : Msg) (h : Rel a b) :
+    Rel ((msem false).finish a).1 ((msem false).finish b).1 ∧ ((msem false).finish a).2 = ((msem false).finish b).2 := by
+  obtain ⟨h1, h2, h3, h4, h5⟩ := h
+  have he : emptyRv false a = emptyRv false b := by unfold emptyRv; rw [h1]
+  simp only [msem]
+  rw [← he]
+  refine ⟨?_, rfl⟩
+  unfold parseEnd
+  simp only [Bool.false_eq_true, if_false]
+  by_cases hz : emptyRv false a = rvOk
+  · simp only [hz, if_true]; exact ⟨rfl, h2, h3, h4, h5⟩
+  · simp only [hz, if_false]; exact ⟨h1, h2, h3, h4, h5⟩
+
+/-- decoder states that differ only in what `Rel` ignores -/
+def StRel : HttpSpec.St Msg → HttpSpec.St Msg → Prop
+  | .run a ra la na, .run b rb lb nb => Rel a b ∧ ra = rb ∧ la = lb ∧ na = nb
+  | .done a n, .done b n' => Rel a b ∧ n = n'
+  | .fail r, .fail r' => r = r'
+  | _, _ => False
+
+theorem strel_step (x y : HttpSpec.St Msg) (c : UInt8) (h : StRel x y) :
+    StRel (HttpSpec.stepByte (msem false) bufsz marker x c) (HttpSpec.stepByte (msem false) bufsz marker y c) := by
+  cases x with
+  | done a n => cases y with
+    | done b n' => exact h
+    | run _ _ _ _ => exact h.elim
+    | fail _ => exact h.elim
+  | fail r => cases y with
+    | fail r' => exact h
+    | run _ _ _ _ => exact h.elim
+    | done _ _ => exact h.elim
+  | run a ra la na => cases y with
+    | done _ _ => exact h.elim
+    | fail _ => exact h.elim
+    | run b rb lb nb =>
+      obtain ⟨hr, e1, e2, e3⟩ := h
+      subst e1; subst e2; subst e3
+      unfold HttpSpec.stepByte
+      by_cases hc : c = HttpSpec.LF
+      · simp only [hc, if_true]
+        by_cases he : (HttpSpec.lineOfAcc ra).isEmpty = true
+        · simp only [he, if_true]
+          obtain ⟨f1, f2⟩ := rel_finish a b hr
+          rw [← f2]
+          by_cases hz : ((msem false).finish a).2 ≠ 0
+          · simp only [hz, if_true, ne_eq, not_false_eq_true]; exact rfl
+          · simp only [hz, if_false]; exact ⟨f1, rfl⟩
+        · simp only [he, Bool.false_eq_true, if_false]
+          obtain ⟨f1, f2⟩ := rel_onLine a b (HttpSpec.lineOfAcc ra) hr
+          rw [← f2]
+          by_cases hz : ((msem false).onLine a (HttpSpec.lineOfAcc ra)).2 ≠ 0
+          · simp only [hz, if_true, ne_eq, not_false_eq_true]; exact rfl
+          · simp only [hz, if_false]; exact ⟨f1, rfl, rfl, rfl⟩
+      · simp only [hc, if_false]
+        by_cases hb : (HttpSpec.isBadCtl c || HttpSpec.endsWithCR ra) = true
+        · simp only [hb, if_true]; exact rfl
+        · simp only [hb, Bool.false_eq_true, if_false]
+          by_cases hl : la + 1 = bufsz
+          · have ho : ∀ x : Msg, (msem false).onLong x = none := fun _ => rfl
+            simp only [hl, if_true, ho]
+            exact rfl
+          · simp only [hl, if_false]; exact ⟨hr, rfl, rfl, rfl⟩
+
+theorem strel_fold (s : Bytes) : ∀ x y, StRel x y →
+    StRel (s.foldl (HttpSpec.stepByte (msem false) bufsz marker) x) (s.foldl (HttpSpec.stepByte (msem false) bufsz marker) y) := by
+  induction s with
+  | nil => intro x y h; exact h
+  | cons c r ih => intro x y h; rw [List.foldl_cons, List.foldl_cons]; exact ih _ _ (strel_step x y c h)
+
+/-- reading a response head into two connection states that agree on the response part and the method -/
+theorem readResHead_rel (a b : Msg) (s : Bytes) (h : Rel a b) :
+    match readResHead a s, readResHead b s with
+    | .more, .more => True
+    | .done m n, .done m' n' => Rel m m' ∧ n = n'
+    | .fail r, .fail r' => r = r'
+    | _, _ => False := by
+  rw [readResHead_eq, readResHead_eq]
+  unfold resHeadOf
+  have h1 := runRead_decode false (by decide) { m := a } [s] rfl (by simp [Conn.put])
+  have h2 := runRead_decode false (by decide) { m := b } [s] rfl (by simp [Conn.put])
+  simp only [Bool.false_eq_true, if_false, List.nil_append, List.flatten_cons, List.flatten_nil, List.append_nil] at h1 h2
+  rw [h1, h2]
+  have hf := strel_fold s (.run a [] 0 0) (.run b [] 0 0) ⟨h, rfl, rfl, rfl⟩
+  unfold HttpSpec.decode
+  generalize s.foldl (HttpSpec.stepByte (msem false) bufsz marker) (.run a [] 0 0) = x at hf
+  generalize s.foldl (HttpSpec.stepByte (msem false) bufsz marker) (.run b [] 0 0) = y at hf
+  cases x <;> cases y <;> simp only [specOut, resHeadOfOut] <;> first | exact hf | exact hf.elim | trivial
+
+/-- what the application sees of a transaction -/
+inductive View where
+  | waiting
+  | error (rv : Nat)
+  | ok (status : Nat) (hdrs : List Hdr) (body : Bytes) (used : Nat)
+deriving DecidableEq
+
+def view : Outcome → View
+  | .waiting => .waiting
+  | .error rv => .error rv
+  | .ok m body used => .ok (getStatus m) m.resHdrs body used
+
+theorem afterHead_rel (a b : Msg) (h : Rel a b) : afterHead a = afterHead b := by
+  obtain ⟨_, _, _, h4, h5⟩ := h
+  unfold afterHead resHeader
+  rw [h4, h5]
+
+/-- ONE TRANSACTION: its result — success or error, status, response headers, body, bytes consumed — depends on the
+    connection's message state only through the request METHOD (HEAD or not): the response headers, status, reason
+    and parse state left by whatever was received before are reset and cannot influence it -/
+theorem transaction_ignores_connection_state (a b : Msg) (s : Bytes) (hm : a.meth = b.meth) :
+    view (transact a s) = view (transact b s) := by
+  have hrel : Rel (resReset a) (resReset b) := ⟨rfl, rfl, rfl, rfl, hm⟩
+  have hh := readResHead_rel (resReset a) (resReset b) s hrel
+  unfold transact transactWith transactAs
+  have e1 : resResetAs true a = resReset a := rfl
+  have e2 : resResetAs true b = resReset b := rfl
+  rw [e1, e2]
+  cases ha : readResHead (resReset a) s with
+  | more =>
+    cases hb : readResHead (resReset b) s with
+    | more => rfl
+    | done _ _ => rw [ha, hb] at hh; exact hh.elim
+    | fail _ => rw [ha, hb] at hh; exact hh.elim
+  | fail r =>
+    cases hb : readResHead (resReset b) s with
+    | fail r' => rw [ha, hb] at hh; simp only at hh; rw [hh]
+    | more => rw [ha, hb] at hh; exact hh.elim
+    | done _ _ => rw [ha, hb] at hh; exact hh.elim
+  | done m n =>
+    cases hb : readResHead (resReset b) s with
+    | more => rw [ha, hb] at hh; exact hh.elim
+    | fail _ => rw [ha, hb] at hh; exact hh.elim
+    | done m' n' =>
+      rw [ha, hb] at hh
+      obtain ⟨hr, hn⟩ := hh
+      subst hn
+      simp only
+      rw [← afterHead_rel m m' hr]
+      have hst : getStatus m = getStatus m' := by unfold getStatus; rw [hr.2.1]
+      cases afterHead m with
+      | none => simp only [view, hst, hr.2.2.2.1]
+      | body k =>
+        simp only
+        by_cases hl : (s.drop n).length < k
+        · simp only [hl, if_true, view]
+        · simp only [hl, if_false, view, hst, hr.2.2.2.1]
+      | chunked =>
+        simp only
+        split
+        · rfl
+        · split
+          · simp only [view, hst, hr.2.2.2.1]
+          · rfl
+
+/-- a connection used for a SEQUENCE of transactions: for each, the request method and the response bytes it gets;
+    the message state left by one transaction (parsed headers, status, version …) is what the next one starts from -/
+def session : Msg → List (Bytes × Bytes) → List Outcome
+  | _, [] => []
+  | m, (meth, s) :: rest =>
+    let o := transact { m with meth := meth } s
+    o :: session (match o with | .ok m1 _ _ => m1 | _ => { m with meth := meth }) rest
+
+/-- NO HISTORY: on a connection used for any sequence of transactions (with or without nng_http_reset in between —
+    `m0` and everything earlier transactions left behind are arbitrary), the result of the k-th transaction is the
+    result a FRESH connection gives for the k-th method and the k-th response's bytes alone -/
+theorem transaction_independent_of_history (xs : List (Bytes × Bytes)) : ∀ (m0 : Msg),
+    (session m0 xs).map view = xs.map fun x => view (transact { meth := x.1 } x.2) := by
+  induction xs with
+  | nil => intro m0; rfl
+  | cons x rest ih =>
+    intro m0
+    obtain ⟨meth, s⟩ := x
+    simp only [session, List.map_cons]
+    rw [ih]
+    congr 1
+    exact transaction_ignores_connection_state _ _ s rfl
+
+/-- without it the second response of a connection is framed by the first one's headers: a chunked response
+    followed by a Content-Length response is handed to the chunk decoder (here "BB" is read as a chunk size and the
+    transaction waits for 187 bytes that never come; other bodies fail with NNG_EPROTO) -/
+theorem unreset_response_leaks :
+    let r1 := HttpSrv.asc "HTTP/1.1 200 OK\r\nTransfer-Encoding: chunked\r\n\r\n1\r\nA\r\n0\r\n\r\n"
+    let r2 := HttpSrv.asc "HTTP/1.1 200 OK\r\nContent-Length: 2\r\n\r\nBB"
+    (match transactAs false readResHead {} r1 with
+     | .ok m1 _ _ => (view (transactAs false readResHead m1 r2), view (transactAs true readResHead m1 r2))
+     | _ => (.waiting, .waiting)) =
+      (.waiting, .ok 200 [⟨sContentLength, HttpSrv.asc "2", 3⟩] (HttpSrv.asc "BB") 40) := by decide +kernel
 
 end Nng.C16Client
